@@ -94,7 +94,8 @@ def run(ctx):
         # beyond the listed properties: the segment-list helpers a router builds its update with (prepend / append / pop
         # of Secure_Path and Signature segments, path_len / sigs_len), judged call by call by BgpsecSegTrace.tla
         from tracecheck import extra_conformance
-        r = vlib.run_tlc("BgpsecSeg", "BgpsecSeg.cfg", pid + "-seg", workers=4, timeout=300)
+        seg_cfg = "BgpsecSeg.cfg" if tier == "quick" else "BgpsecSeg_big.cfg"   # 68 163 / 8 848 271 distinct states
+        r = vlib.run_tlc("BgpsecSeg", seg_cfg, pid + "-seg", workers=4 if tier == "quick" else 12, timeout=1500)
         exe_s = vlib.build_harness(pid, "asan", ["bgpsecseg_harness.c"], objs, exe="h_seg")
         t_seg = os.path.join(wd, "seg.ndjson")
         ncalls = 4000 if tier == "quick" else 40000
@@ -104,7 +105,7 @@ def run(ctx):
                                   "rtr_bgpsec_{prepend,append}_{sec_path,sig}_seg / pop_*: both lists and both counters after every call (BgpsecSeg.tla)")
         else:
             x = {"what": "segment-list helpers", "spec": "BgpsecSegTrace", "accepted": False, "harness_exit": rc_s, "output": out_s[-400:]}
-        x["model"] = {"spec": "BgpsecSeg.tla / BgpsecSeg.cfg", "ok": bool(r.ok and r.violation is None), "distinct_states": r.distinct,
+        x["model"] = {"spec": "BgpsecSeg.tla / " + seg_cfg, "ok": bool(r.ok and r.violation is None), "distinct_states": r.distinct,
                       "checked": ["CountersExact", "PopUndoesPrepend", "RejectChangesNothing"]}
         extras.append(x)
     rel = [e for e in evs if (e["e"] == "val") == (pid == "C11")]
